@@ -874,6 +874,9 @@ func (g *vtC15GenState) pods(target int64, ns []int64, likely bool) [][2]int64 {
 	}
 	var out [][2]int64
 	n := 1 + r.Intn(2)
+	if likely {
+		n = 1
+	}
 	for i := 0; i < n; i++ {
 		label, nsid := int64(-1), int64(1000+r.Intn(4))
 		switch r.Intn(5) {
